@@ -51,6 +51,7 @@ def parse_sched(line, out):
     _, names, evs = line.split()
     names = names.split(','); evs = evs.split(',')
     p = out.split()
+    if len(p) == 5 and p[4].startswith('P'): p = p[:4]
     if len(p) != 4: return None
     res = p[0].split(','); cls = [int(x) for x in p[1].split(',')]
     lg = [] if p[2] == '-' else [int(x) for x in p[2].split(',')]
@@ -83,6 +84,11 @@ def overlapping_first_loads(names, evs):
     return same, anyo
 
 
+def strip_post(out):
+    p = out.split()
+    return ' '.join(p[:4]) if len(p) == 5 and p[4].startswith('P') else out
+
+
 def check_sched_semantics(chk, pid, line, out):
     """the C13 / C20 oracles on one schedule's outcome (on the implementation)"""
     r = parse_sched(line, out)
@@ -90,6 +96,18 @@ def check_sched_semantics(chk, pid, line, out):
         chk.report('schedule outcome unreadable: %s' % out, {'op': line, 'implementation': out}); return False
     names, evs, res, cls, lg, mx = r
     okk = True
+    p = out.split()
+    if len(p) == 5 and p[4].startswith('P'):
+        # single-threaded re-load of every name after the schedule (theorems same_name_same_identity, cached_load)
+        pc, calls = p[4][1:].split(':')
+        pc = [int(x) for x in pc.split(',')]
+        for i, n in enumerate(names):
+            if pc[i] != cls[i]:
+                chk.report('after schedule %s, loading %s once more gives a zone that is not equal to the one thread %d obtained (names %s)' % (','.join(evs), n, i, ','.join(names)),
+                           {'op': line, 'implementation': out}, sig='sched reload identity'); okk = False
+        if int(calls) != 0:
+            chk.report('after schedule %s, loading the names %s once more consulted the data source %s more time(s)' % (','.join(evs), ','.join(names), calls),
+                       {'op': line, 'implementation': out}, sig='sched reload factory'); okk = False
     if pid == 'C13':
         for i, n in enumerate(names):
             want = '1' if seq_ok(n) else '0'
@@ -107,7 +125,7 @@ def check_sched_semantics(chk, pid, line, out):
                 if not same_name and cls[i] == cls[j] and cls[i] != 0:
                     chk.report('under schedule %s threads %d and %d loaded different names %s / %s and got the same zone object' % (','.join(evs), i, j, names[i], names[j]),
                                {'op': line, 'implementation': out}, sig='sched distinct-name identity'); okk = False
-    else:
+    elif pid == 'C20':
         need = [i for i, n in enumerate(names) if n[0] in 'vxn']
         for tid in lg:
             if tid < 0 or tid >= len(names):
@@ -134,12 +152,20 @@ def run_sched_part(chk, pid, exe, scale):
     lines = sched_lines(scale, chk.rng)
     mo = run_model(lines)
     io = run_lines(exe, lines, timeout=600)
+    # the same outcomes are required when a schedule is the very first thing the process does (the
+    # zone map does not exist yet): a sample of schedules, each in a process of its own
+    fresh = [l for l in lines if l.split()[1] in ('v1,v2', 'v1,v1', 'v1,x1', 'v1,v2,v3', 'v1,v2,v1')]
+    fresh = fresh if scale != 'quick' else chk.rng.sample(fresh, min(len(fresh), 40))
+    fo = [run_lines(exe, [l], timeout=60)[0] for l in fresh]
+    fm = run_model(fresh)
+    chk.count('schedules:fresh-process', len(fresh))
+    lines = lines + fresh; mo = mo + fm; io = io + fo
     chk.cov['evaluations'] += len(lines); chk.cov['traces_validated_against_impl'] += len(lines)
     chk.count('schedules', len(lines))
     good = 0
     mism = 0
     for l, a, b in zip(lines, mo, io):
-        if canon(b) != a:
+        if canon(strip_post(b)) != a:
             mism += 1
             if mism <= 10: chk.broken.append('correspondence: `%s` model=`%s` implementation=`%s`' % (l, a, b))
         if check_sched_semantics(chk, pid, l, b): good += 1
